@@ -19,7 +19,7 @@ impl E2Part for Enums {
     }
     fn cases(&self, tier: Tier) -> usize {
         match tier {
-            Tier::Quick => 2_400,
+            Tier::Quick => 4_800,
             Tier::Thorough => 48_000,
         }
     }
@@ -252,7 +252,7 @@ impl E2Part for Dedication {
     }
     fn cases(&self, tier: Tier) -> usize {
         match tier {
-            Tier::Quick => 1_200,
+            Tier::Quick => 2_400,
             Tier::Thorough => 24_000,
         }
     }
